@@ -339,6 +339,7 @@ type sut struct {
 	store db.DB
 	fx    *fixtures
 	empty map[string][]byte // store content right after genesis
+	deep  bool              // thorough: additionally ReadAll(nil) below the snapshot
 }
 
 func newSut(name string, fx *fixtures) *sut {
@@ -723,7 +724,7 @@ func (s *sut) observe(h *handle, m *model, light bool) (msg string) {
 			complete = false
 		}
 	}
-	if complete && m.snap != nil {
+	if complete && m.snap != nil && s.deep {
 		if d := s.readAll(h, m, nil, nil); d != "" {
 			return "ReadAll(nil): " + d
 		}
@@ -931,10 +932,13 @@ type explorerA struct {
 	arrival map[mkey][32]byte // owned target states: canonical raw content of the first arrival
 	arrPath map[mkey][]aop
 	stop    bool
+
+	probeDead bool // also look up the blocks of truncated entries (observation only)
 }
 
 func newExplorerA(ctx *xplor.Ctx, s *sut, a *alphabet) *explorerA {
 	x := &explorerA{ctx: ctx, s: s, alpha: a, used: s.open(), kids: map[int32][]int32{}, index: map[mkey]int32{}, arrival: map[mkey][32]byte{}, arrPath: map[mkey][]aop{}}
+	x.probeDead = ctx.Tier == "thorough" || os.Getenv("C16_STRICT_INVERSE") != "" || ctx.Replay != nil
 	x.nodes = []tnode{{parent: -1}}
 	x.index[newModel().key()] = 0
 	x.frontier = []int32{0}
@@ -1092,8 +1096,10 @@ func (x *explorerA) checked(content map[string][]byte, m *model, p *plan, nm *mo
 	}
 	// (3b) observation, not judged by default (see NOTES.md "stale inverse index"):
 	// the inverse index of a block whose entry was truncated away is left behind
-	if d := s.staleInverse(x.ctx, post, nm); d != "" && os.Getenv("C16_STRICT_INVERSE") != "" {
-		return "after " + p.o.String() + ": " + d, nil
+	if x.probeDead {
+		if d := s.staleInverse(x.ctx, post, nm); d != "" && os.Getenv("C16_STRICT_INVERSE") != "" {
+			return "after " + p.o.String() + ": " + d, nil
+		}
 	}
 	// (4) crash points
 	x.ctx.Max("max_durable_units_per_op", int64(len(units)))
@@ -1197,6 +1203,8 @@ func (x *explorerA) expandLevel(final bool) {
 	}
 	walk(0, x.s.empty, newModel())
 	if !x.stop {
+		// = number of shards (32) when the level is complete
+		x.ctx.Count(fmt.Sprintf("a_shards_done_%s_level%d", x.alpha.name, x.level), 1)
 		x.ctx.Max("max_depth_"+x.alpha.name, int64(x.level))
 		if x.ctx.Shard == 0 {
 			x.ctx.Count("a_states_expanded_"+x.alpha.name, int64(len(x.frontier)))
